@@ -66,7 +66,7 @@ def decode(code):
         else:
             b = ["just-before"]  # 1us before the alarm
         bodies.append({"b": b, "probe": probe})
-    return {"P": P, "t0": T0[t0], "bodies": bodies, "free_at": free_at if free_at < len(bodies) else None, "free_how": ["free", "with", "free-twice"][free_how],
+    return {"P": P, "t0": T0[t0], "bodies": bodies, "free_at": free_at if free_at < len(bodies) else None, "free_how": ["free", "with", "free-twice", "with-exception"][(free_how + free_at) % 4],
             "enter_after": [None, 0, 35, 250][free_at % 4] if free_at % 3 == 0 else None, "second": free_at % 2 == 0}
 
 
@@ -150,6 +150,10 @@ class C16(Lab):
                     try:
                         if how == "with":
                             delay.__exit__(None, None, None)
+                        elif how == "with-exception":
+                            err = ValueError("loop body failed")
+                            if delay.__exit__(ValueError, err, None):
+                                raise Violation("C16/exit-swallows", f"__exit__ returned a true value for an exception; case: {case}")
                         else:
                             delay.free()
                             if how == "free-twice":
